@@ -60,6 +60,7 @@ namespace {
     std::shared_ptr<ak::ForthMachine64> m64;
     std::vector<std::pair<std::string, std::string>> last_inputs;   // name -> bytes of the last begin/run
     InputMap live_inputs;                                             // keeps the buffers of the current run alive
+    std::map<std::string, std::shared_ptr<uint8_t>> live_bufs;        // raw views of those buffers (to observe that inputs stay unmodified)
   };
 
   std::map<int64_t, Machine> machines;
@@ -73,13 +74,19 @@ namespace {
 
   struct ByteDeleter { void operator()(uint8_t* p) const { delete [] p; } };
 
-  InputMap make_inputs(const std::vector<std::pair<std::string, std::string>>& pairs) {
+  // raw views of the buffers handed to the machine in the latest begin/run (name -> buffer), so that "the machine does not
+  // modify its inputs" can be observed: forth_inputs_modified compares them with the bytes that were passed in
+  typedef std::map<std::string, std::shared_ptr<uint8_t>> BufMap;
+
+  InputMap make_inputs(const std::vector<std::pair<std::string, std::string>>& pairs, BufMap& live_bufs) {
     InputMap out;
+    live_bufs.clear();
     for (auto const& p : pairs) {
       // exact-size allocation: a read beyond the end is visible to AddressSanitizer
       std::shared_ptr<uint8_t> buf(new uint8_t[p.second.size()], ByteDeleter());
       if (!p.second.empty()) std::memcpy(buf.get(), p.second.data(), p.second.size());
       out[p.first] = std::make_shared<ak::ForthInputBuffer>(std::shared_ptr<void>(buf), 0, (int64_t)p.second.size());
+      live_bufs[p.first] = buf;
     }
     return out;
   }
@@ -214,20 +221,20 @@ namespace {
                   AkbResult* out) {
     if (op == "forth_begin") {
       mm.last_inputs = pairs_of(ss);
-      InputMap ins = make_inputs(mm.last_inputs);
+      InputMap ins = make_inputs(mm.last_inputs, mm.live_bufs);
       m.begin(ins);
       mm.live_inputs = ins;
       out->kind = K_NONE; return true;
     }
     if (op == "forth_begin_again") {
-      InputMap ins = make_inputs(mm.last_inputs);
+      InputMap ins = make_inputs(mm.last_inputs, mm.live_bufs);
       m.begin(ins);
       mm.live_inputs = ins;
       out->kind = K_NONE; return true;
     }
     if (op == "forth_run") {
       mm.last_inputs = pairs_of(ss);
-      InputMap ins = make_inputs(mm.last_inputs);
+      InputMap ins = make_inputs(mm.last_inputs, mm.live_bufs);
       mm.live_inputs = ins;          // keep alive even if run() throws half way
       ret_int(out, (int64_t)m.run(ins)); return true;
     }
@@ -247,6 +254,15 @@ namespace {
     if (op == "forth_call_index") {
       if (ia.at(0) < 0 || ia.at(0) >= (int64_t)m.dictionary().size()) throw BridgeError("bridge: forth_call_index out of range");
       ret_int(out, (int64_t)m.call(ia.at(0))); return true;
+    }
+    if (op == "forth_inputs_modified") {
+      // number of input buffers of the latest begin/run (of this thread) whose bytes differ from what was passed in
+      int64_t changed = 0;
+      for (auto const& p : mm.last_inputs) {
+        auto it = mm.live_bufs.find(p.first);
+        if (it != mm.live_bufs.end() && !p.second.empty() && std::memcmp(it->second.get(), p.second.data(), p.second.size()) != 0) changed++;
+      }
+      out->kind = K_INT; out->i = changed; return true;
     }
     if (op == "forth_reset") { m.reset(); mm.live_inputs.clear(); out->kind = K_NONE; return true; }
     if (op == "forth_stack_clear") { m.stack_clear(); out->kind = K_NONE; return true; }
